@@ -36,6 +36,7 @@ type Solver struct {
 	scratch  bool
 	kind     string
 	timeout  int
+	Retries  int
 	lines    chan string
 	Restarts int
 }
@@ -208,6 +209,26 @@ func (s *Solver) Check(pc []*Term, extra ...*Term) SatResult {
 		return Sat
 	case "unsat":
 		return Unsat
+	}
+	if line == "unknown" && s.kind != "cvc5" {
+		// give a query that ran into the time limit one more try with four times the limit (a loaded machine
+		// makes cheap queries slow); only a second non-answer counts as unknown
+		s.Retries++
+		old := s.timeout
+		s.timeout = 4 * old
+		s.send(fmt.Sprintf("(set-option :timeout %d)", s.timeout))
+		s.send("(check-sat)")
+		line = s.readLine()
+		s.timeout = old
+		if line != "timeout-killed" {
+			s.send(fmt.Sprintf("(set-option :timeout %d)", old))
+		}
+		switch line {
+		case "sat":
+			return Sat
+		case "unsat":
+			return Unsat
+		}
 	}
 	if strings.HasPrefix(line, "(error") {
 		s.Errors = append(s.Errors, line)
